@@ -1,7 +1,9 @@
 //! slicec-bounded <check>   -- prints one JSON object per counterexample (at most 5) and a summary.
-//! checks: plugin (C19)  preproc (C06)  decode (C11)  totals (C07)  visitor (C20)
+//! checks: plugin (C19)  preproc (C06)  decode (C11)  totals (C07)  visitor (C20)  fileset (C17)  lexical (C01)
 use std::collections::{BTreeMap, HashMap, HashSet};
 
+mod oracle_fileset;
+mod oracle_lexical;
 mod oracle_plugin;
 mod oracle_preproc;
 mod oracle_visitor;
@@ -23,17 +25,21 @@ fn js(s: &str) -> String {
     o
 }
 
+thread_local! { pub static LAST_PANIC: std::cell::RefCell<String> = std::cell::RefCell::new(String::new()); }
+
 pub struct Report {
     check: &'static str,
     bound: String,
     cases: u64,
     nontrivial: u64,
     cex: u64,
+    other: u64,
+    panic_sites: BTreeMap<String, u64>,
     samples: Vec<String>,
 }
 impl Report {
     pub fn new(check: &'static str, bound: &str) -> Self {
-        Report { check, bound: bound.to_owned(), cases: 0, nontrivial: 0, cex: 0, samples: vec![] }
+        Report { check, bound: bound.to_owned(), cases: 0, nontrivial: 0, cex: 0, other: 0, panic_sites: BTreeMap::new(), samples: vec![] }
     }
     pub fn case(&mut self, nontrivial: bool, sample: impl FnOnce() -> String) {
         self.cases += 1;
@@ -46,8 +52,21 @@ impl Report {
     }
     pub fn counterexample(&mut self, input: &str, expected: &str, got: &str) {
         self.cex += 1;
-        if self.cex <= 5 {
-            println!("{{\"counterexample\":{{\"check\":{},\"input\":{},\"expected\":{},\"got\":{}}}}}", js(self.check), js(input), js(expected), js(got));
+        // a panic is reported with the source location it was raised at (panic hook below); at most 2
+        // inputs are printed per distinct location, at most 5 other counterexamples
+        let mut got = got.to_owned();
+        let print = if got.contains("PANIC") {
+            let loc = LAST_PANIC.with(|l| l.borrow().clone());
+            if !loc.is_empty() { got = format!("{got} at {loc}"); }
+            let n = self.panic_sites.entry(loc).or_insert(0);
+            *n += 1;
+            *n <= 2 && self.panic_sites.len() <= 40
+        } else {
+            self.other += 1;
+            self.other <= 5
+        };
+        if print {
+            println!("{{\"counterexample\":{{\"check\":{},\"input\":{},\"expected\":{},\"got\":{}}}}}", js(self.check), js(input), js(expected), js(&got));
         }
     }
     pub fn finish(self) -> i32 {
@@ -61,7 +80,10 @@ impl Report {
 }
 
 fn main() {
-    std::panic::set_hook(Box::new(|_| {}));
+    std::panic::set_hook(Box::new(|info| {
+        let loc = info.location().map(|l| format!("{}:{}", l.file(), l.line())).unwrap_or_default();
+        LAST_PANIC.with(|l| *l.borrow_mut() = loc);
+    }));
     let arg = std::env::args().nth(1).unwrap_or_default();
     let rc = match arg.as_str() {
         "plugin" => oracle_plugin::run(),
@@ -69,8 +91,11 @@ fn main() {
         "decode" => decode_check(),
         "totals" => totals_check(),
         "visitor" => oracle_visitor::run(),
+        "fileset" => oracle_fileset::run(),
+        "lexical" => oracle_lexical::run(),
+        "one" => oracle_lexical::one(&std::env::args().nth(2).unwrap_or_default()),
         _ => {
-            eprintln!("usage: slicec-bounded plugin|preproc|decode|totals|visitor");
+            eprintln!("usage: slicec-bounded plugin|preproc|decode|totals|visitor|fileset|lexical");
             2
         }
     };
